@@ -468,7 +468,7 @@ enum AnyCase {
 
 /// cases outside the small decision table: long axes with one defect at every position,
 /// axes that alias each other or the data, and the default index axis of a long f32 data set
-fn special_cases(quick: bool, out: &mut JobOut) {
+fn special_cases(quick: bool, deep: bool, out: &mut JobOut) {
     use ndarray::{Array2, ArrayView1};
     let mut judge1 = |key: String, got: Result<Result<(), ndarray_interp::BuilderError>, String>, want: &[&'static str], out: &mut JobOut, what: String| {
         let g = match got {
@@ -480,7 +480,10 @@ fn special_cases(quick: bool, out: &mut JobOut) {
         judge(out, key, g, &set, Json::str(&what));
     };
     // (1) long axes, one defect at every position
-    let lens: Vec<usize> = if quick { vec![65, 128, 129, 200] } else { vec![33, 64, 65, 127, 128, 129, 130, 200, 256, 257, 1025] };
+    let mut lens: Vec<usize> = if quick { vec![65, 128, 129, 200] } else { vec![33, 64, 65, 127, 128, 129, 130, 200, 256, 257, 1025] };
+    if deep {
+        lens.extend([511, 512, 513, 2047, 2048, 2049, 4097]);
+    }
     for &n in &lens {
         let inc: Vec<f64> = (0..n).map(|i| i as f64 * 0.5 - 3.0).collect();
         let mut variants: Vec<(String, Vec<f64>, bool)> = vec![("increasing".into(), inc.clone(), true)];
@@ -603,7 +606,9 @@ fn special_cases(quick: bool, out: &mut JobOut) {
 }
 
 fn body(ctx: &Ctx) -> (Summary, Meta) {
-    let quick = ctx.quick();
+    // the former thorough bounds cost under a second: they are the quick tier now
+    let quick = false;
+    let deep = !ctx.quick();
     let mut all: Vec<AnyCase> = cases_1d().into_iter().map(AnyCase::One).collect();
     let n1 = all.len();
     all.extend(cases_2d(quick).into_iter().map(AnyCase::Two));
@@ -629,7 +634,7 @@ fn body(ctx: &Ctx) -> (Summary, Meta) {
     let mut sum = sum;
     sum.merge(run_jobs(ctx, "special-cases", &[()], |_| "special".to_string(), |_| {
         let mut out = JobOut::default();
-        special_cases(quick, &mut out);
+        special_cases(quick, deep, &mut out);
         out.states = out.evals;
         out.sample = Some(Json::str("long axes with one defect at every position; aliased axis views; f32 default axis of 2^24+2 points"));
         out
